@@ -31,7 +31,8 @@ RULE = ("one run = 1..4 generated Intel-HEX images (1..8 data areas across 64 Ki
         "written out of address order, record lengths 1..255, LF / CRLF) hashed by `signapp hash` in two "
         "different writings each (one image in four of a multi-image run is an earlier image of the run in "
         "another writing), embedded by `signapp message` for successive releases (same output path, "
-        "fresh paths, console), then signed by `signonetime` (distinct file names or build<i>/app.hex) "
+        "fresh paths, console), then signed by `signonetime` (distinct file names, build<i>/app.hex, or "
+        "names that a shell would read as patterns) "
         "twice under two different entropy streams (each run without / with -v / --verbose) "
         "(and once more under the first stream); non-trivial = at least one signature file was written; "
         "distinct = (#images, #areas, multi-zone, out-of-order, record-length set, eol)")
@@ -102,6 +103,9 @@ def run_one(ch, cfg):
     viol = []
     areas_list, paths, writings = [], [], []
     same_name = ch.draw(3, "same-file-name") == 1
+    # ... or names that are file names to the tool and would be patterns to a shell (img[1].hex next
+    # to img1.hex): a path given is the file of that name
+    odd_names = not same_name and ch.draw(4, "pattern-like-names") == 1
     shape = []
     for i in range(nimg):
         areas = hexfile.gen_areas(ch)
@@ -114,7 +118,10 @@ def run_one(ch, cfg):
         b = hexfile.write(ch, areas, eol=ch.pick(["\n", "\r\n"], "eol2"))
         areas_list.append(areas)
         # images of one signing run may share their file name (builds/v1/app.hex, builds/v2/app.hex)
-        paths.append(("/simfs/build%d/app.hex" if same_name else "/simfs/app%d.hex") % i)
+        if odd_names:
+            paths.append("/simfs/img%d.hex" % (i // 2 + 1) if i % 2 == 0 else "/simfs/img[%d].hex" % (i // 2 + 1))
+        else:
+            paths.append(("/simfs/build%d/app.hex" if same_name else "/simfs/app%d.hex") % i)
         writings.append((a, b))
         zones = set((s >> 16) for s, d in areas) | set(((s + len(d) - 1) >> 16) for s, d in areas)
         shape.append((len(areas), len(zones) > 1))
